@@ -153,7 +153,7 @@ fn plans_c09(tier: Tier) -> Vec<Plan> {
     let mut c2 = c.clone();
     c2.variant = 2;
     c2.topics = s(&["a/b"]);
-    c2.filters = s(&["a/b"]);
+    c2.filters = s(&["a/b", "a/+"]);
     v.push(Plan { cfg: c2, depth_by_devs: if q { vec![4, 4] } else { vec![6, 6, 6] } });
     v
 }
@@ -281,8 +281,16 @@ fn plans_c20(tier: Tier) -> Vec<Plan> {
         let mut w = mk("C20", 100, 4, &["a/b", "a/c"], &["a/+"]);
         w.v5 = vec![pub_v5, false, false, true, false];
         w.prelude.push(Act::Sub { c: 2, f: 0, qos: 1 });
+        let mut late = w.clone();
         w.prelude.push(Act::Sub { c: 3, f: 0, qos: 1 });
         v.push(Plan { cfg: w, depth_by_devs: if q { vec![3] } else { vec![5, 4] } });
+        if pub_v5 {
+            // the MQTT 5 subscriber subscribes late: retained messages (with properties) are
+            // replayed to it
+            v.push(Plan { cfg: late.clone(), depth_by_devs: if q { vec![3] } else { vec![5] } });
+            late.v5 = vec![true, false, true, false, false];
+            v.push(Plan { cfg: late, depth_by_devs: if q { vec![3] } else { vec![5] } });
+        }
     }
     v
 }
@@ -361,7 +369,7 @@ pub fn explore_plans(prop: &'static str, tier: Tier, reporter: &Reporter, ev: &m
             *d += delta;
         }
         // histories without scheduling deviations are cheap: one step deeper in the quick tier
-        if tier == Tier::Quick && matches!(prop, "C01" | "C06" | "C08" | "C14" | "C15" | "C16" | "C19" | "C20") {
+        if tier == Tier::Quick && matches!(prop, "C01" | "C08" | "C14" | "C15" | "C16" | "C19") {
             p.depth_by_devs[0] += 1;
         }
     }
